@@ -639,43 +639,78 @@ def to_dict(x, sizes):
     return out
 
 
+OFFSETS = (0.5, -0.5, 1.0, -1.0, 2.0, -2.0, 0.25, -0.25, 0.75, -0.75, 1.5, -1.5)
+
+
 def richardson(fun, x, h):
     """Richardson-extrapolated central differences of ``fun`` (batched: (N, n_in) -> (N, n_out)) at ``x``.
 
-    Returns (R(h, h/2), R(2h, h), values at x, all stencil points).
+    Returns (R(h, h/2), R(2h, h), noise bound of R(h, h/2), values at x, all stencil points).  The noise bound comes
+    from the residual of a degree-4 least-squares fit through the 13 samples of each axis (offsets 0, +-h/4 ... +-2h):
+    a smooth model leaves ~0, a model whose predictions are only known to some absolute accuracy delta (cancellation
+    in badly scaled features, quantisation) leaves ~delta, which the difference quotient amplifies to 3*delta/h.
     """
     n = len(x)
     pts = [x]
     for j in range(n):
-        for f in (0.5, 1.0, 2.0):
-            for sgn in (+1, -1):
-                p = x.copy()
-                p[j] += sgn * f * h[j]
-                pts.append(p)
+        for f in OFFSETS:
+            p = x.copy()
+            p[j] += f * h[j]
+            pts.append(p)
     pts = np.array(pts)
     vals = fun(pts)
     m = vals.shape[1]
-    r1, r2 = np.zeros((m, n)), np.zeros((m, n))
+    r1, r2, noise = np.zeros((m, n)), np.zeros((m, n)), np.zeros((m, n))
+    k = len(OFFSETS)
+    s_ = np.array((0.0, *OFFSETS))
+    vander = np.vander(s_, 5)
+    proj = np.eye(len(s_)) - vander @ np.linalg.pinv(vander)
     for j in range(n):
-        b = 1 + 6 * j
+        b = 1 + k * j
         d_half = (vals[b] - vals[b + 1]) / (h[j])
         d_one = (vals[b + 2] - vals[b + 3]) / (2 * h[j])
         d_two = (vals[b + 4] - vals[b + 5]) / (4 * h[j])
         r1[:, j] = (4 * d_half - d_one) / 3
         r2[:, j] = (4 * d_one - d_two) / 3
-    return r1, r2, vals[0], pts
+        samples = np.vstack([vals[0:1], vals[b:b + k]])
+        resid = np.abs(proj @ samples).max(axis=0)
+        noise[:, j] = 6.0 * resid / h[j]
+    return r1, r2, noise, vals[0], pts
 
 
-def jac_tolerance(r1, r2, rtol=1e-6):
+def jac_tolerance(r1, r2, rtol=1e-6, noise=0.0):
     """Tolerance of the comparison with the reference ``r1`` and whether the reference is reliable.
 
-    The reference is used only when the extrapolations from (h, h/2) and (2h, h) agree to the level of the
-    tolerance itself (ill-conditioned models have noisy predictions: not judged, counted).
+    The reference is used only when the extrapolations from (h, h/2) and (2h, h) agree, and the measured noise
+    of the difference quotient stays, within the level of the tolerance itself (models with noisy predictions are
+    not judged at that point, counted).
     """
     scale = 1 + np.abs(r1).max(axis=1, keepdims=True)
     gap = np.abs(r1 - r2)
-    reliable = bool(np.all(np.isfinite(r1)) and np.all(np.isfinite(r2)) and np.all(gap <= rtol * scale))
-    return rtol * scale + 10 * gap, reliable
+    reliable = bool(np.all(np.isfinite(r1)) and np.all(np.isfinite(r2)) and np.all(gap <= rtol * scale)
+                    and np.all(noise <= rtol * scale))
+    return rtol * scale + 10 * gap + noise, reliable
+
+
+def step_resolvable(model, x0, h):
+    """Can the stencil be resolved after the input transformation?  (A reduced or badly scaled input transformer can
+    map a step of 5e-4*range onto a few ulps of the transformed coordinates; the difference quotient is then
+    quantisation noise or exactly zero, whatever the true derivative.)"""
+    t_in = model.transformer.get("inputs")
+    if t_in is None:
+        return True
+    try:
+        with np.errstate(all="ignore"):
+            t0 = np.asarray(t_in.transform(x0.copy()), dtype=float)
+            for j in range(len(x0)):
+                p = x0.copy()
+                p[j] += 0.25 * h[j]
+                dt = np.abs(np.asarray(t_in.transform(p), dtype=float) - t0)
+                if not np.all(np.isfinite(dt)) or not np.any(dt >= 1e5 * np.spacing(np.abs(t0).max())):
+                    return False
+    except Exception:
+        return False
+    return True
 
 
 def kernel_condition(case, model):
@@ -847,7 +882,10 @@ def judge_model(case, rep):
             # shape and availability were judged; the values cannot be (prediction noise, see kernel_condition)
             rep.count("jacobian_values_not_judged_ill_conditioned_kernel_matrix")
             break
-        r1, r2, v0, pts = richardson(predict, x0, h)
+        if not step_resolvable(model, x0, h):
+            rep.count("query_skipped_step_not_resolvable_after_input_transformation")
+            continue
+        r1, r2, noise, v0, pts = richardson(predict, x0, h)
         if not np.all(np.isfinite(v0)) or not np.all(np.isfinite(r1)):
             rep.count("query_skipped_non_finite_prediction")
             continue
@@ -857,7 +895,7 @@ def judge_model(case, rep):
             if len(set(cls.tolist())) > 1:
                 rep.count("query_skipped_class_boundary")
                 continue
-        tol, reliable = jac_tolerance(r1, r2, rtol_jac)
+        tol, reliable = jac_tolerance(r1, r2, rtol_jac, noise)
         if not reliable:
             rep.count("query_skipped_fd_unreliable")
             continue
@@ -1056,23 +1094,33 @@ def judge_interpolation(case, rep, model, x_l, y_l, tag, ttag):
     # output transformer this is rtol * S (see roundoff_sensitivity), which exceeds rtol*|y| when the image of the
     # transformer is badly scaled (offset >> variation, e.g. a pipeline stage fitted on untransformed data).
     t_out = model.transformer.get("outputs")
+    floor = 0.0
     if t_out is not None and isinstance(case["tout"], dict):
         sens = roundoff_sensitivity(case["tout"], t_out, y_l)
         if not np.all(np.isfinite(sens)) or np.any(sens > 1e4 * scale):
             rep.count("interpolation_skipped_ill_scaled_output_transformer")
             return False
         scale = scale + sens
+        # this clause judges the model: what the output transformer itself loses on the learning outputs (judged by
+        # clause 3) is not charged to it
+        try:
+            with np.errstate(all="ignore"):
+                back = np.asarray(t_out.inverse_transform(np.asarray(t_out.transform(y_l.copy()))))
+            if back.shape == y_l.shape and np.all(np.isfinite(back)):
+                floor = 2.0 * np.abs(back - y_l).max(axis=0)
+        except Exception:
+            pass
     rep.count("interpolation_checked")
     rep.count(f"interpolation_checked:{name}")
     err = np.abs(pred - y_l).max(axis=0)
-    if not np.all(err <= rtol * scale):
+    if not np.all(err <= rtol * scale + floor):
         sig = f"C18:{name}:interpolation:{tag}"
         if name == "RegressorChain":
             sig = "C18:RegressorChain:interpolation:" + chain_mechanism(case)
         elif name in ("RBFRegressor", "TPSRegressor", "LinearRegressor", "PolynomialRegressor"):
             sig += ":" + ttag
         rep.violation(sig, "interpolation", case, observed={"max_abs_error_per_output": err},
-                      expected={"tolerance": rtol * scale},
+                      expected={"tolerance": rtol * scale + floor},
                       msg="an interpolating model does not reproduce its learning outputs")
     return True
 
@@ -1289,7 +1337,15 @@ def power_spread(spec, t, x):
         out = []
         for j in range(x.shape[1]):
             y = np.asarray(fun(x[:, j], lambdas[j]))
-            out.append((y.max() - y.min()) / max(np.abs(y).max(), 1e-300))
+            spread = (y.max() - y.min()) / max(np.abs(y).max(), 1e-300)
+            if spec["kind"] != "BoxCox":
+                # scikit-learn inverts Yeo-Johnson with (lambda*y + 1)**(1/lambda) unless |lambda| < 2.2e-16 (and with
+                # 2 - lambda on the negative branch): a tiny non-zero exponent costs 1/|lambda| digits in the same way
+                lam = float(lambdas[j])
+                for v_ in (abs(lam), abs(2.0 - lam)):
+                    if v_ >= np.spacing(1.0):
+                        spread = min(spread, v_)
+            out.append(spread)
         return np.array(out)
     except Exception:
         return None
